@@ -14,6 +14,10 @@
 // goroutines calling Reset<M>Calls()/ResetCalls() concurrently; the final equality is replaced
 // by "every remaining record was issued, none twice", then ResetCalls() must empty all logs.
 //
+// Before that, a single-goroutine re-entrancy probe per mock: <M>Func reads <M>Calls(), calls <M>
+// again, resets, or waits for another goroutine reading <M>Calls(); the outer call must return
+// (watchdog: "deadlock") and the nested read must already contain the running call.
+//
 // Testify mocks: On(<method>, mock.Anything...).Return(<tokens>) for every method, then G
 // goroutines call the methods concurrently (plus goroutines adding expectations through the
 // expecter) and check the returned values; the number of recorded calls must match.
@@ -32,6 +36,7 @@ import (
 	"strings"
 	"sync"
 	"sync/atomic"
+	"time"
 
 	tmock "github.com/stretchr/testify/mock"
 )
@@ -614,6 +619,88 @@ func stressMatryer(job Job, mk func() any, withResets bool, res *Result, E *errs
 	res.Resets += int(resets)
 }
 
+// ---------------------------------------------------------------- re-entrancy probe
+// A user function may use the mock it is serving: read <M>Calls() (which must already contain the
+// running call), call <M> again, reset, or wait for another goroutine that uses <M>.  A generated
+// method that still holds lock<M> while <M>Func runs never returns from any of these.
+func probeReentrancy(job Job, mk func() any, res *Result, E *errs) bool {
+	ok := true
+	for _, variant := range []string{"calls", "recurse", "reset", "other-goroutine"} {
+		mock := reflect.ValueOf(mk())
+		ms := methodsOf(mock)
+		if len(ms) == 0 {
+			return true
+		}
+		if variant == "reset" && !mock.MethodByName("ResetCalls").IsValid() {
+			continue
+		}
+		m := ms[job.Seed%len(ms)]
+		f := mock.Elem().FieldByName(m.name + "Func")
+		ft := f.Type()
+		depth := 0
+		var seen, inner int = -1, -1
+		f.Set(reflect.MakeFunc(ft, func(a []reflect.Value) []reflect.Value {
+			depth++
+			if depth == 1 {
+				switch variant {
+				case "calls":
+					seen = mock.MethodByName(m.name + "Calls").Call(nil)[0].Len()
+				case "recurse":
+					callVariadicAware(mock.MethodByName(m.name), m, m.args(2))
+					inner = mock.MethodByName(m.name + "Calls").Call(nil)[0].Len()
+				case "reset":
+					mock.MethodByName("Reset" + m.name + "Calls").Call(nil)
+					seen = mock.MethodByName(m.name + "Calls").Call(nil)[0].Len()
+				case "other-goroutine":
+					ch := make(chan int)
+					go func() { ch <- mock.MethodByName(m.name + "Calls").Call(nil)[0].Len() }()
+					seen = <-ch
+				}
+			}
+			outs := make([]reflect.Value, ft.NumOut())
+			for j := range outs {
+				outs[j] = enc(ft.Out(j), m.result(0, j))
+			}
+			return outs
+		}))
+		done := make(chan struct{})
+		go func() {
+			defer close(done)
+			defer func() {
+				if r := recover(); r != nil {
+					E.add("%s re-entrancy(%s): panic %v", job.Mock, variant, r)
+				}
+			}()
+			callVariadicAware(mock.MethodByName(m.name), m, m.args(1))
+		}()
+		select {
+		case <-done:
+			res.Calls++
+			switch variant {
+			case "calls", "other-goroutine":
+				if seen != 1 {
+					E.add("%s re-entrancy(%s): %sCalls() read while %sFunc was serving the first call has %d records, the running call must be there (1)", job.Mock, variant, m.name, m.name, seen)
+				}
+			case "recurse":
+				if inner != 2 {
+					E.add("%s re-entrancy(recurse): %d records after the nested call of %s, want 2", job.Mock, inner, m.name)
+				}
+			case "reset":
+				if seen != 0 {
+					E.add("%s re-entrancy(reset): %d records right after Reset%sCalls() inside %sFunc, want 0", job.Mock, seen, m.name, m.name)
+				}
+			}
+		case <-time.After(3 * time.Second):
+			E.add("%s re-entrancy(%s): deadlock - %s never returned although %sFunc only used the mock it serves (lock%s still held while the user function runs?)", job.Mock, variant, m.name, m.name, m.name)
+			ok = false
+		}
+		if !ok {
+			break // one witness per mock is enough; every further variant would wait for the watchdog again
+		}
+	}
+	return ok
+}
+
 // ---------------------------------------------------------------- testify
 func stressTestify(job Job, mk func() any, res *Result, E *errs) {
 	obj := mk()
@@ -758,6 +845,9 @@ func main() {
 			if j.Kind == "testify" {
 				stressTestify(j, mk, &res, E)
 			} else {
+				if !j.Stub && !probeReentrancy(j, mk, &res, E) {
+					return
+				}
 				stressMatryer(j, mk, false, &res, E)
 				if reflect.ValueOf(mk()).MethodByName("ResetCalls").IsValid() {
 					stressMatryer(j, mk, true, &res, E)
